@@ -285,6 +285,7 @@ def run(tier, seed, replay=None):
             except Exception as e:  # noqa
                 fail('g2 primitive', args, 'raised %s' % type(e).__name__)
 
+        spl_l1, stl_l1 = [], []
         # ------------------------------------------------------------ SPL records
         for it in range(reps):
             s = O.gen_obj(rng, kinds=['open'], nint_max=2, rational=False)
@@ -311,6 +312,12 @@ def run(tier, seed, replay=None):
                 if len(back) != 1 or not all(b1.order == b2.order and np.array_equal(b1.knots, b2.knots) for b1, b2 in zip(o.bases, back[0].bases)) \
                         or not np.array_equal(np.asarray(back[0].controlpoints), np.asarray(o.controlpoints)):
                     fail('spl', args, 'an SPL record does not read to the object it describes')
+                elif len(back) == 1:
+                    # the same token lines go to the model's reader (Model/Spl.v)
+                    toklines = [[C.fr(67), C.fr(o.pardim), C.fr(o.dimension), C.fr(0)]] + [[C.fr(b.order)] for b in o.bases] + \
+                               [[C.fr(b.num_functions())] for b in o.bases] + [[C.fr(1e-6)]] + [[C.fr(float(k))] for b in o.bases for k in b.knots] + \
+                               [[C.fr(float(x))] for x in np.asarray(o.controlpoints).transpose().reshape(-1)]
+                    spl_l1.append((args, toklines, O.snapshot(back[0]), O.snapshot(o)))
             except Exception as e:  # noqa
                 fail('spl', args, 'raised %s' % type(e).__name__)
 
@@ -379,6 +386,7 @@ def run(tier, seed, replay=None):
                 want_f = 2 * (len(uu) - 1) * (len(vv) - 1)
                 if nf != want_f:
                     fail('stl', args, '%d facets in the file, the tessellation has %d' % (nf, want_f))
+                stl_l1.append((args, O.snapshot(o), n, verts, nf, atol * (1 if not binary else 10)))
             except Exception as e:  # noqa
                 fail('stl', args, 'raised %s' % type(e).__name__)
 
@@ -458,6 +466,60 @@ def run(tier, seed, replay=None):
         ok = len(got) == len(want) and all(len(a) == len(b) and all(abs(x - y) <= 2e-15 * max(abs(x), abs(y)) for x, y in zip(a, b)) for a, b in zip(got, want))
         if not ok and corr_bad.open():
             corr_bad += {'what': 'L1: the G2 record differs from the model encoder', 'op': 'g2', 'args': dict(obj=O.spec_json(snap))}
+    # ---- L1: SPL reader vs Model/Spl.v (same token lines), and files written from the model's own writer
+    tolq = C.fr(1e-10)
+    sl = []
+    for (a_, toklines, back_snap, o_snap) in spl_l1:
+        sl.append('spl_decode %s %d %s' % (C.qs(tolq), len(toklines), ' '.join(C.qlist(t_) for t_ in toklines)))
+        sl.append('spl_lines %s %s' % (C.qs(C.fr(1e-6)), O.obj_tokens(o_snap)))
+    so = C.run_model(sl) if sl else []
+    tmp2 = tempfile.mkdtemp(prefix='c19b_')
+    try:
+        for i_, (a_, toklines, back_snap, o_snap) in enumerate(spl_l1):
+            nl1 += 1
+            tk = so[2 * i_]
+            if tk.word() != 'Some':
+                corr_bad += {'what': 'L1: the model SPL reader rejects a record the implementation reads', 'op': 'spl', 'args': a_}
+            else:
+                mo = O.read_obj(tk)
+                df = O.snaps_differ(back_snap, mo, rel=0)
+                if df:
+                    corr_bad += {'what': 'L1: SPL.read differs from the model reader: %s' % df, 'op': 'spl', 'args': a_}
+            mlines = so[2 * i_ + 1].list(so[2 * i_ + 1].qlist)
+            fn = os.path.join(tmp2, 'm%d.spl' % i_)
+            with open(fn, 'w') as f:
+                f.write('C ' + ' '.join(str(int(x)) for x in mlines[0][1:]) + '\n')
+                for row in mlines[1:]:
+                    f.write(' '.join(repr(float(x)) if x.denominator != 1 or abs(x) > 10 ** 15 else str(int(x)) for x in row) + '\n')
+            try:
+                with SPL(fn) as f:
+                    back2 = f.read()
+                df = O.snaps_differ(O.snapshot(back2[0]), o_snap, rel=0) if len(back2) == 1 else 'not exactly one object'
+                if df:
+                    corr_bad += {'what': 'L1: a file written by the model SPL writer reads to a different object: %s' % df, 'op': 'spl', 'args': a_}
+            except Exception as e:  # noqa
+                corr_bad += {'what': 'L1: a file written by the model SPL writer cannot be read (%s)' % type(e).__name__, 'op': 'spl', 'args': a_}
+    finally:
+        shutil.rmtree(tmp2, ignore_errors=True)
+    # ---- L1: STL facets in file order vs Model/Stl.v
+    tl = []
+    for (a_, snap, n_, verts, nf, at_) in stl_l1:
+        has = 0 if n_ is None else 1
+        n0, n1 = (0, 0) if n_ is None else ((n_, n_) if isinstance(n_, int) else tuple(n_))
+        tl.append('stl_write_surface %s %s %d %d %d' % (C.qs(tolq), O.obj_tokens(snap), has, n0, n1))
+    to = C.run_model(tl) if tl else []
+    for tk, (a_, snap, n_, verts, nf, at_) in zip(to, stl_l1):
+        nl1 += 1
+        if tk.word() != 'Ok':
+            corr_bad += {'what': 'L1: the model STL writer raises %s, the implementation writes a file' % tk.word(), 'op': 'stl', 'args': a_}
+            continue
+        mcount = tk.int()
+        tris = tk.list(lambda: [tk.qlist(), tk.qlist(), tk.qlist()])
+        mverts = np.asarray([[float(x) for x in p_] for t_ in tris for p_ in t_], dtype=float).reshape(-1, 3)
+        if mcount != nf or len(tris) != nf:
+            corr_bad += {'what': 'L1: %d facets in the file, the model writes %d (declares %d)' % (nf, len(tris), mcount), 'op': 'stl', 'args': a_}
+        elif mverts.shape != np.asarray(verts).shape or np.max(np.abs(mverts - verts)) > at_ * max(1.0, np.abs(mverts).max()):
+            corr_bad += {'what': 'L1: the facets in the file differ from the model tessellation (order or values)', 'op': 'stl', 'args': a_}
     dist['op']['L1 comparisons'] = nl1
     rc = V.finish(l0, corr_bad)
     C.write_evidence(PID, tier, seed, l0, {
